@@ -24,7 +24,7 @@ REQUIRED = ["batch_entries_compared", "batches/cache_on", "batches/cache_off", "
             "validate_smiles_compared", "validate_records_where_tautomer_flag_matters", "validate_records_where_aromaticity_flag_matters", "balance_compared", "cluster_batches_compared", "syncrn_compared",
             "batches/adversarial_id", "nonempty_entry_results", "batches/explicit_mode", "batches/dedupe_off", "batches/repeated_rule_objects",
             "cluster_batches_with_attribute", "cluster_batches_with_partial_attribute",
-            "cluster_batches_non_default_config", "cluster_batches_numeric_attribute", "syncrn_rule_objects_compared"]
+            "cluster_batches_non_default_config", "cluster_batches_numeric_attribute", "syncrn_rule_objects_compared", "batches/rules_as_iterator"]
 ASSUMPTIONS = [
     "reference for one entry: SynReactor on smiles_to_graph(entry) for each rule graph in order, flattened, order-preserving de-duplication",
     "the cache-coherence monitor only sees calls made in this process (entry_n_jobs=1); worker processes are covered by the output differential",
@@ -116,7 +116,7 @@ def check_batch(ctx, entries, rules, cfg, tag):
     from synkit.Synthesis.Reactor.batch_reactor import BatchReactor
 
     invert = cfg.get("invert", False)
-    kw = {k: v for k, v in cfg.items() if k not in ("invert", "adversarial", "refit", "graphs", "mode", "repeat_objs")}
+    kw = {k: v for k, v in cfg.items() if k not in ("invert", "adversarial", "refit", "graphs", "mode", "repeat_objs", "rules_as_iterator")}
     rule_graphs = BatchReactor._ensure_graph_rules(rules)
     if cfg.get("repeat_objs"):
         # the caller's rule list holds the same template object more than once (rules sampled with replacement)
@@ -131,6 +131,9 @@ def check_batch(ctx, entries, rules, cfg, tag):
         set_adversarial(True, ctx.seed * 17 + ctx.evaluations)
     try:
         eh, it = (True, False) if cfg.get("mode") == "explicit" else (False, True)
+        if cfg.get("rules_as_iterator"):
+            ctx.count("batches/rules_as_iterator")
+            fit_rules = iter(list(fit_rules)) if ctx.rng.random() < 0.5 else (r_ for r_ in list(fit_rules))
         try:
             b = BatchReactor(entries, strategy="bt", explicit_h=eh, implicit_temp=it, enable_logging=True, **kw)
             res = b.fit(fit_rules, invert=invert)
@@ -427,6 +430,7 @@ def run(ctx):
         k = rng.randint(3, 5)
         cfgs.append({"dedupe": False, "repeat_objs": [0] + [rng.randrange(3) for _ in range(k - 2)] + [0], "cache_enabled": rng.random() < 0.8})
         cfgs.append({"dedupe": False, "cache_enabled": True, "repeat_objs": [rng.randrange(3) for _ in range(k)], "refit": rng.random() < 0.5})
+        cfgs.append({"rules_as_iterator": True, "cache_enabled": rng.random() < 0.5})
         if t % 2 == 0:
             cfgs.append({"entry_n_jobs": rng.choice([2, 4])})
             cfgs.append({"parallel_rules": True, "rule_n_jobs": 2})
